@@ -48,6 +48,23 @@ class Fragile(object):
         return state
 
 
+class Sticky(object):
+    """a value whose class customises copying: `copy.deepcopy` hands back the very same object (interned / registry-backed
+    values do this).  The serializer still builds a fresh one."""
+
+    def __init__(self, items):
+        self.items = list(items)
+
+    def __deepcopy__(self, memo):
+        return self
+
+    def __copy__(self):
+        return self
+
+
+VALUE_CLASSES = {'fragile': Fragile, 'sticky': Sticky}
+
+
 class BoxError(Exception):
     """an exception carrying mutable state in attributes (the serializer keeps the attributes and drops the arguments); an
     intercepted input whose value is one of these RAISES it, the operation catches it and may mutate what it carries"""
@@ -235,7 +252,7 @@ class C11(Prop):
     RULE = ('scripted lives of one recording on every cassette: record (copy-on-interception on/off) with in-place mutation '
             'after capture, then fetches / reads / live metadata / __setitem__ / mutations of handed-out values / replays whose '
             'replayed code mutates injected values; + stored values whose copy-on-read fails (an object whose serialised state omits a '
-            'derived attribute), read / re-read / replayed on the in-memory and the file cassette (not modelled: whatever a read hands '
+            'derived attribute) and stored values whose class customises copying (`__deepcopy__` returns the same object), read / re-read / replayed on the in-memory and the file cassette (not modelled: whatever a read hands '
             'out must not expose the stored value); + inputs recorded with copy-on-interception through a data handler whose prepared form holds the '
             'result next to a live argument / instance state that the operation goes on changing (not modelled: the recording holds what they were at the '
             'interception); a case is non-trivial when at least one in-place mutation applied to a '
@@ -342,6 +359,9 @@ class C11(Prop):
             for reads in (['get', 'get'], ['item', 'get'], ['get', 'refetch', 'get'], ['play', 'play'], ['get', 'play']):
                 cases.append({'kind': 'fragile', 'cassette': cassette, 'reads': reads,
                               'items': [rng.choice(['a', 'b', 'c']) + str(i) for i in range(rng.randint(1, 3))]})
+                # ... and values whose class customises copying (`__deepcopy__` hands back the same object)
+                cases.append({'kind': 'fragile', 'cls': 'sticky', 'cassette': cassette, 'reads': reads,
+                              'items': [rng.choice(['a', 'b', 'c']) + str(i) for i in range(rng.randint(1, 3))]})
         for cassette in ('mem', 'file'):
             for embed in ('argument', 'state'):
                 calls = rng.sample(range(10), rng.randint(1, 3))
@@ -422,7 +442,7 @@ class C11(Prop):
             cassette = self.make_cassette(case['cassette'], tmp)
             rec = cassette.create_new_recording('Frag')
             key = 'input: load args={"py/tuple": []}, kwargs=[]'
-            rec.set_data(key, {'value': Fragile(case['items'])})
+            rec.set_data(key, {'value': VALUE_CLASSES[case.get('cls', 'fragile')](case['items'])})
             rec.set_data(OP_OUT, {'args': ['done'], 'kwargs': {}})
             cassette.save_recording(rec)
             tr = TapeRecorder(cassette)
@@ -430,7 +450,7 @@ class C11(Prop):
             class Op(object):
                 @tr.intercept_input('load')
                 def load(self):
-                    return Fragile(case['items'])
+                    return VALUE_CLASSES[case.get('cls', 'fragile')](case['items'])
 
                 @tr.operation()
                 def run(self):
@@ -1093,7 +1113,7 @@ class C11(Prop):
         if case.get('kind') == 'ctxhandler':
             return ['cassette:' + case['cassette'], 'handler-embeds-live-%s' % case['embed'], 'copy:%s' % case['copy']]
         if case.get('kind') == 'fragile':
-            return ['cassette:' + case['cassette'], 'stored-value-whose-copy-fails'] + ['fragile-read:%s:%s' % (r[0], r[1]) for r in impl['reads']]
+            return ['cassette:' + case['cassette'], 'stored-value-whose-copy-fails' if case.get('cls', 'fragile') == 'fragile' else 'stored-value-with-own-deepcopy'] + ['fragile-read:%s:%s' % (r[0], r[1]) for r in impl['reads']]
         out = ['cassette:' + case['cassette'], 'copy:%s' % case['copy']]
         if 'obs' not in impl:
             return out
